@@ -134,7 +134,9 @@ DispatchCases == <<
   [prog |-> <<"call", "d11", <<>>>>, ctx |-> <<>>, gfun |-> ("d11" :> "h15")],
   [prog |-> <<"call", "d11", <<>>>>, ctx |-> ("d11" :> <<"fn", "h16">>), gfun |-> ("d11" :> "h15")],
   [prog |-> <<"call", "max", <<<<"lit", VInt(4)>>, <<"lit", VInt(6)>>>>>>, ctx |-> <<>>, gfun |-> <<>>],
-  [prog |-> <<"list", <<<<"call", "d11", <<>>>>, <<"call", "max", <<<<"lit", VInt(1)>>>>>>>>>>, ctx |-> ("max" :> <<"fn", "h6">>), gfun |-> ("d11" :> "h15")] >>
+  [prog |-> <<"list", <<<<"call", "d11", <<>>>>, <<"call", "max", <<<<"lit", VInt(1)>>>>>>>>>>, ctx |-> ("max" :> <<"fn", "h6">>), gfun |-> ("d11" :> "h15")],
+  \* the argument rebinds the callee's name to a variable: the call is resolved afterwards, so the registered function runs
+  [prog |-> <<"call", "d12", <<<<"bin", "=", <<"ref", "d12">>, <<"lit", VInt(2)>>>>>>>>, ctx |-> ("d12" :> <<"fn", "h17">>), gfun |-> ("d12" :> "h18")] >>
 DispatchEnv(c, fault) == [handlers |-> [h \in {HID[i] : i \in 1..18} |-> [ret |-> VStr(<<104, LeafIdx(h) + 64>>), act |-> "lockctx"]],
                           gfun |-> c.gfun, gprefix |-> <<>>, gpostfix |-> <<>>, ginfix |-> <<>>, fault |-> fault]
 DispatchInit == \E k \in 1..Len(DispatchCases), fault \in {NoFault, <<1, "err">>, <<1, "panic">>, <<2, "err">>} : Start(DispatchEnv(DispatchCases[k], fault), DispatchCases[k].prog, DispatchCases[k].ctx)
